@@ -7,7 +7,9 @@ argument tuple, per item when batched) and the rows yielded by evaluate() are co
 reference model written from the documented semantics.  Expected rewards are looked up in the *original*
 interaction by position, so the oracle never re-implements Finalize / Repr / OpeRewards.  Batched runs are also
 compared row-for-row with the unbatched run of the same data; environments lacking a field the mode reads must be
-rejected with an error.
+rejected with an error.  Unbatched environments may be ragged in the keys coba's own interaction classes leave out per
+interaction (the logged 'probability', extra fields): the IPS transform is reward/probability of *that* interaction
+(absent probability = no re-weighting) and a row carries exactly the extra fields of its own interaction.
 """
 import re, math, traceback
 
@@ -18,18 +20,34 @@ RULE  = ("seeded environments (context absent/None/scalar/dense/sparse/categoric
          "fields; extra fields; Batch(n)) x learn in {on,off,ips,None} x eval in {on,ips,None} x any subset of the 7 "
          "record options x scripted recording learner (8 prediction formats, with/without score, batch-aware or not); "
          "a case is one evaluate() call checked against the reference model (+ its unbatched twin, + one rejection run "
-         "per readable field); distinct & non-trivial = distinct (learn, eval, record set, context kind, action kind, "
-         "reward kind, logged?, prediction format, score?, batch class, learner style) with >= 2 interactions")
+         "per readable field); unbatched environments may have ragged key sets (logged 'probability' and extra fields "
+         "present on some interactions and absent on others, at any position incl. the first); "
+         "distinct & non-trivial = distinct (learn, eval, record set, context kind, action kind, "
+         "reward kind, logged?, prediction format, score?, batch class, learner style, ragged probability?, ragged extras?) "
+         "with >= 2 interactions")
 PLAN  = {"quick":    {"shards": 16, "cases": 64000,   "timeout": 600,  "budget_s": 75},
          "thorough": {"shards": 16, "cases": 3200000, "timeout": 3000, "budget_s": 840}}
 REQUIRED = ["oracle.trace.order", "oracle.trace.predict", "oracle.trace.learn.on", "oracle.trace.learn.off",
             "oracle.trace.learn.ips", "oracle.rows.count", "oracle.rows.reward.on", "oracle.rows.reward.ips.predict",
             "oracle.rows.reward.ips.score", "oracle.rows.action", "oracle.rows.probability", "oracle.rows.extras",
             "oracle.rows.no-unrequested", "oracle.rows.context", "oracle.rows.actions", "oracle.rows.rewards",
-            "oracle.rows.time", "oracle.metamorphic.batched==unbatched", "oracle.reject", "oracle.trace.batched"]
+            "oracle.rows.time", "oracle.metamorphic.batched==unbatched", "oracle.reject", "oracle.trace.batched",
+            "oracle.ragged.ips-reward.learn", "oracle.ragged.ips-reward.rows.predict", "oracle.ragged.ips-reward.rows.score",
+            "oracle.ragged.extras.present", "oracle.ragged.extras.absent"]
 ASSUMPTIONS = [
     "dr/dm modes and record='ope_loss' need vowpalwabbit and are excluded",
-    "every interaction of one environment has the same key set (coba decides everything from the first interaction); "
+    "context / actions / rewards / action / reward are present on every interaction of an environment or on none (coba's "
+    "own interaction classes always set them); the keys those classes produce raggedly -- the logged 'probability' "
+    "(LoggedInteraction omits it when the propensity is None) and extra fields -- may be present on any subset of the "
+    "interactions, first included, in unbatched environments only (Batch keeps the key set of the first interaction by "
+    "design); an absent probability means no re-weighting in the IPS transform (reward/1)",
+    "an environment with ragged 'probability' may instead be rejected with a KeyError/CobaException naming 'probability' "
+    "(the unchanged tree does so whenever the first interaction has one and a later one has not, in every mode)",
+    "ragged 'probability' is not combined with learn='off': which probability an off-policy learner is handed when only "
+    "some interactions logged one is unspecified (the unchanged tree decides it from the first interaction)",
+    "ragged extra fields are only generated when every row holds at least one requested column (otherwise empty rows are "
+    "legitimately not yielded and the row/interaction correspondence is undefined); a row must carry exactly the extra "
+    "fields of its own interaction",
     "action sets hold pairwise distinct actions; extra fields are plain data (no callables) with neutral names",
     "what the learner sees is compared with the original only when the environment is already final (no Categorical, "
     "no lazy rows); otherwise only positional relations (chosen index -> reward of that index) are asserted",
@@ -248,7 +266,31 @@ def gen_case(rng):
             rl = _first_row_len(inter[0], ls)       # SafeLearner probes with an extra predict when the first batch is "square"
             ok = [b for b in cands if min(b, N) != rl]
             if min(batch, N) == rl: batch = rng.choice(ok) if ok else None
+    # ---- ragged key sets (unbatched only): the keys coba's own interaction classes leave out per interaction
+    rag_prob = rag_extras = False
+    if batch is None and N >= 2:
+        if has_prob and learn != "off" and rng.random() < .4:
+            rag_prob = True
+            keep = [rng.random() < .5 for _ in range(N)]
+            if all(keep) or not any(keep):                        # at least one with, at least one without
+                i = rng.randrange(N); keep = [not keep[0]]*N; keep[i] = not keep[i]
+            for it, k in zip(inter, keep):
+                if not k: del it["probability"]
+            for t, it in enumerate(inter):                        # mostly play the logged action: the IPS reward of any other is 0
+                if rng.random() < .7:
+                    if it["_lk"] is not None: ls["j"][t] = it["_lk"]
+                    else: ls["x"][t] = it["action"]
+        rec_l = ["reward", "action", "probability"] if record is None else [record] if isinstance(record, str) else record
+        always_row = "time" in rec_l or "context" in rec_l or (eval_ and ("reward" in rec_l or "action" in rec_l))
+        if extras_keys and always_row and rng.random() < .4:
+            for k in extras_keys:
+                keep = [rng.random() < .5 for _ in range(N)]
+                if all(keep): keep[rng.randrange(N)] = False
+                for it, kp in zip(inter, keep):
+                    if not kp: del it[k]
+            rag_extras = True
     spec = {"learn": learn, "eval": eval_, "record": record, "inter": inter, "batch": batch, "learner": ls,
+            "ragged": {"prob": rag_prob, "extras": rag_extras},
             "kinds": {"context": ckind, "actions": akind, "rewards": rkind, "logged": has_logged, "prob": has_prob,
                       "const_actions": const_actions or bool(const_prefix)}, "key_order_seed": key_order_seed, "seed": rng.choice([None, 1, 7]),
             "cls": "coba" if key_order_seed is None and rng.random() < .4 else "dict"}
@@ -389,7 +431,7 @@ def build_interactions(spec, drop=None):
         if spec.get("key_order_seed") is not None and type(d) is dict:
             if order is None:
                 order = list(d.keys()); random.Random(spec["key_order_seed"]).shuffle(order)
-            d = {k: d[k] for k in order}
+            d = {k: d[k] for k in order + [k for k in d if k not in order] if k in d}
         out.append(d)
     return out
 
@@ -495,6 +537,8 @@ def model_check(spec, rows, trace, batch, note, p_default=None):
     def ips_reward(t, chosen_is_logged):
         p = inter[t].get("probability", p_default)
         return inter[t]["reward"] / (p if p else 1) if chosen_is_logged else 0
+    rag_p = bool((spec.get("ragged") or {}).get("prob"))      # some interactions carry a logged probability, some do not
+    rtag  = "/ragged-probability" if rag_p else ""
     def chosen_is_logged(t):
         pe = P[t]
         if cont or not has_actions: return pe["action"] == inter[t]["action"]
@@ -534,19 +578,22 @@ def model_check(spec, rows, trace, batch, note, p_default=None):
             a_ok = le["action"] is exp_a or le["action"] == exp_a
         if not a_ok:
             V.append((f"trace.learn-args/action/{ltag}", f"learn #{t} got action {le['action']!r}, expected {plain(exp_a) if learn=='off' else exp_a!r}")); return V
+        if rag_p and learn == "ips" and exp_r != 0: note("oracle.ragged.ips-reward.learn")
         if not num_eq(le["reward"], exp_r):
-            V.append((f"trace.learn-args/reward/{ltag}", f"learn #{t} got reward {le['reward']!r}, expected {exp_r!r} (interaction {plain(inter[t])!r})")); return V
+            V.append((f"trace.learn-args/reward/{ltag}{rtag if learn == 'ips' else ''}", f"learn #{t} got reward {le['reward']!r}, expected {exp_r!r} (interaction {plain(inter[t])!r})")); return V
         if not (le["p"] is None and exp_p is None) and not num_eq(le["p"], exp_p):
             V.append((f"trace.learn-args/probability/{ltag}", f"learn #{t} got probability {le['p']!r}, expected {exp_p!r}")); return V
         if dict(le["kw"]) != dict(exp_kw) and not (learn == "off" and did_pred and dict(le["kw"]) == dict(P[t]["kw"])):
             V.append((f"trace.learn-args/kwargs/{ltag}", f"learn #{t} got kwargs {le['kw']!r}, expected {exp_kw!r}")); return V
 
     # ---- 4. rows
-    extras = [k for k in inter[0] if k not in EXCLUDED and k != "_lk"]
-    allowed = set(extras)
+    extras_at = [[k for k in it if k not in EXCLUDED and k != "_lk"] for it in inter]
+    extras_all = sorted({k for ks in extras_at for k in ks})
+    rag = spec.get("ragged") or {}
+    requested = set()
     for r_ in record:
-        allowed |= {"time": {"predict_time", "learn_time"}}.get(r_, {r_})
-    expect_any = bool(extras) or any([("time" in record), ("context" in record), ("actions" in record and has_actions),
+        requested |= {"time": {"predict_time", "learn_time"}}.get(r_, {r_})
+    expect_any = bool(extras_all) or any([("time" in record), ("context" in record), ("actions" in record and has_actions),
                                       ("rewards" in record and has_rewards), (eval_ and "reward" in record), (eval_ and "action" in record),
                                       (eval_ and "probability" in record and did_pred and P and P[0]["p"] is not None)])
     def _check_rows(rows, quiet=False):
@@ -557,21 +604,28 @@ def model_check(spec, rows, trace, batch, note, p_default=None):
         for t, row in enumerate(rows):
             if not isinstance(row, dict):
                 V.append((f"rows.not-a-mapping/{btag}", f"row {t} is {row!r}")); return V
-            unexp = set(row) - allowed
+            extras = extras_at[t]
+            unexp = set(row) - requested - set(extras)
             note_("oracle.rows.no-unrequested")
+            if rag.get("extras"):
+                if extras: note_("oracle.ragged.extras.present")
+                if set(extras_all) - set(extras): note_("oracle.ragged.extras.absent")
             if unexp:
-                V.append((f"rows.unrequested-field/{'+'.join(sorted(unexp))}/{btag}", f"row {t} has keys {sorted(unexp)} that were neither requested in record={record} nor extra fields")); return V
+                foreign = unexp <= set(extras_all)        # an extra field of some *other* interaction of a ragged environment
+                V.append((f"rows.unrequested-field/{'extra-field-of-another-interaction' if foreign else '+'.join(sorted(unexp))}/{btag}",
+                          f"row {t} has keys {sorted(unexp)} that were neither requested in record={record} nor extra fields of interaction {t} ({plain(inter[t])!r})")); return V
             if extras: note_("oracle.rows.extras")
             for k in extras:
                 if k not in row or not _same_extra(row[k], plain(inter[t][k])):
-                    V.append((f"rows.extra-field/{'dropped' if k not in row else 'altered'}/{btag}", f"row {t}: extra field {k!r}={plain(inter[t][k])!r} came out as {row.get(k, '<absent>')!r}")); return V
+                    V.append((f"rows.extra-field/{'dropped' if k not in row else 'altered'}/{btag}{'/ragged-extras' if rag.get('extras') else ''}", f"row {t}: extra field {k!r}={plain(inter[t][k])!r} came out as {row.get(k, '<absent>')!r}")); return V
             # reward
             if "reward" in record:
                 if eval_:
                     exp = (S[t]["s"] * ips_reward(t, True)) if score_path else on_reward(t) if eval_ == "on" else ips_reward(t, chosen_is_logged(t))
                     note_("oracle.rows.reward.on" if eval_ == "on" else "oracle.rows.reward.ips.score" if score_path else "oracle.rows.reward.ips.predict")
+                    if rag_p and eval_ == "ips" and exp != 0: note_("oracle.ragged.ips-reward.rows.score" if score_path else "oracle.ragged.ips-reward.rows.predict")
                     if "reward" not in row or not num_eq(row["reward"], exp):
-                        V.append((f"rows.reward/{'score-path/' if score_path else ''}{etag}", f"row {t}: reward {row.get('reward','<absent>')!r}, expected {exp!r} (interaction {plain(inter[t])!r})")); return V
+                        V.append((f"rows.reward/{'score-path/' if score_path else ''}{etag}{rtag if eval_ == 'ips' else ''}", f"row {t}: reward {row.get('reward','<absent>')!r}, expected {exp!r} (interaction {plain(inter[t])!r})")); return V
                 elif "reward" in row:
                     V.append((f"rows.reward/recorded-without-eval/{btag}", f"row {t} has a reward {row['reward']!r} although eval=None")); return V
             if "action" in record and (eval_ or "action" in row):
@@ -659,7 +713,11 @@ def check_case(spec, ctx=None):
     flags = ("/batched" if batch else "") + ("" if _is_final(spec) else "/non-final")
     if exc is not None:
         if isinstance(exc, _NoBatch): raise exc
-        V.append((f"{_exc_sig(exc)}{'/batched' if batch else ''}", f"evaluate raised {type(exc).__name__}: {exc} (learn={learn}, eval={eval_}, record={spec['record']}, batch={batch})"))
+        if (spec.get("ragged") or {}).get("prob") and type(exc).__name__ in ("KeyError", "CobaException") and "probability" in str(exc):
+            # an environment in which some interactions lack the logged probability may be rejected with an error naming
+            # the field (the alternative, evaluating them without re-weighting, is what the model checks)
+            note("oracle.ragged.rejected:" + ("ips-mode" if "ips" in (learn, eval_) else "mode-not-reading-probability"))
+        else: V.append((f"{_exc_sig(exc)}{'/batched' if batch else ''}", f"evaluate raised {type(exc).__name__}: {exc} (learn={learn}, eval={eval_}, record={spec['record']}, batch={batch})"))
     else:
         V += model_check(spec, rows, trace, batch, note)
     if batch and not V:
@@ -687,7 +745,7 @@ def check_case(spec, ctx=None):
         if learn == "ips" or eval_ == "ips":
             lenient.add("probability")
             if "actions" not in strict: lenient.add("actions")
-        have = set(spec["inter"][0])
+        have = {k for it in spec["inter"] for k in it}
         for key in sorted((strict | lenient) & have):
             rows_r, trace_r, exc_r = run_eval(spec, batch, drop=key)
             note("oracle.reject")
@@ -715,7 +773,9 @@ def _case_key(spec):
     b = spec["batch"]
     bc = None if b is None else "1" if b == 1 else "all" if b >= len(spec["inter"]) else "some"
     return (spec["learn"], spec["eval"], rec, k["context"], k["actions"], k["rewards"], k["logged"], k["prob"],
-            ls["fmt"], ls["score"], bc, ls["style"] if b else None, bool([x for x in spec["inter"][0] if x not in EXCLUDED and x != "_lk"]))
+            ls["fmt"], ls["score"], bc, ls["style"] if b else None,
+            bool([x for it in spec["inter"] for x in it if x not in EXCLUDED and x != "_lk"]),
+            bool((spec.get("ragged") or {}).get("prob")), bool((spec.get("ragged") or {}).get("extras")))
 
 def run_shard(ctx):
     i = 0
